@@ -43,6 +43,13 @@ def gen_solver_consts() -> str:
             raise T.TranslateError("unrecognised max_downgrade argument of a recursive compile_roots call")
     if len(decs) != 1:
         raise T.TranslateError(f"expected exactly one budget-spending compile_roots call (the walk-back loop), found {len(decs)}")
+    # compile-wide extras (perform_compile(extras=...)) are NOT modelled (the model's runs have extras=None); what is
+    # tied is the shape of the only place that uses them: they are merged into the edge reason exactly when the
+    # distribution just acquired comes from a SourceRepository
+    conds = [ast.unparse(n.test) for n in ast.walk(cr) if isinstance(n, ast.If) and "options.extras" in ast.unparse(n.test)]
+    want = "reason is not None and options.extras and isinstance(metadata.origin, SourceRepository)"
+    if conds != [want]:
+        raise T.TranslateError(f"compile-wide extras are applied under another condition than `{want}`: {conds}")
     body = T.HEADER
     body += f"Definition walkback_budget_decrement : nat := {decs[0]}.\n"
     body += f"Definition max_compile_depth : nat := {depth}.\n"
